@@ -51,8 +51,9 @@ EXPLANATION = ("PARTIAL. Lean theorems about Core/CmaElitist.lean, all inputs: e
                "(1+lambda) success rule, A A^T = C under the Cholesky contract and preservation of positive definiteness "
                "(onepl_cov_rule, onepl_factor, onepl_posdef), MO selection count / rank-then-indicator closed form / "
                "alignment of the five per-parent lists (mo_select_count, mo_rank_then_hv, mo_alignment, mo_adjust_spec, "
-               "mo_offspring_values). Not proved: chaining the active inverse invariant through constraint updates over "
-               "whole histories (active_inverse_history_Statement; one round is proved). Trusted and validated "
+               "mo_offspring_values); whole-history invariants: active_inverse_history (invA*A = I through rank-one and "
+               "constraint updates), mo_inverse_history and mo_psucc_sigma_history (every parent, any sequence of rounds), "
+               "onepl_factor_history (A A^T = C and C positive definite after every round). Trusted and validated "
                "numerically on every call: cholesky, inv, IEEE rounding, the non-dominated sort, the hypervolume indicator.")
 TOL = 1e-9
 COND_LIMIT = 1e12
@@ -544,8 +545,9 @@ def eval_mo(d):
     real_r1 = strategy._rankOneUpdate
 
     def r1(invCh, A, alpha, beta, v):
+        pre_inv, pre_A, pre_v = invCh.copy(), A.copy(), v.copy()     # before the call: it may work in place
         out = real_r1(invCh, A, alpha, beta, v)
-        r1calls.append((invCh.copy(), A.copy(), alpha, beta, v.copy(), out))
+        r1calls.append((pre_inv, pre_A, alpha, beta, pre_v, (out[0].copy(), out[1].copy())))
         return out
     strategy._rankOneUpdate = r1
     lines, expect = [], []
@@ -665,7 +667,7 @@ def eval_mo(d):
                 inv2, A2 = out
                 w = invCh.dot(v)
                 cnd = numpy.linalg.cond(A)
-                if A2 is A or numpy.array_equal(A2, A):
+                if numpy.array_equal(A2, A):
                     n_skip += 1
                     if numpy.abs(w).max() > 1e-20:
                         raise Fail("round %d: covariance adaptation skipped although |A^-1 v| = %.3g (v = %r)" % (r, numpy.abs(w).max(), list(v)))
@@ -1046,6 +1048,30 @@ def generate(tier, rng, mult):
         if rng.random() < 0.3:
             pts[rng.randrange(n)] = list(pts[rng.randrange(n)])     # duplicate
         yield {"k": "mosel", "mu": rng.randint(1, n + 1), "pts": pts}
+    # -- structured histories aimed at state carried between rounds
+    for i in range((12 if thorough else 4) * mult):
+        dim = rng.randint(2, 4)
+        # success streaks: psucc crosses pthresh while the parent is being replaced
+        yield {"k": "op", "dim": dim, "lam": rng.choice([1, 1, 2, lmax]), "obj": "sphere",
+               "x0": [round(3 + 2 * rng.random(), 3) for _ in range(dim)], "sigma": rng.choice([1e-3, 1e-2]),
+               "rounds": rng.randint(8, 25), "seed": rng.randrange(1 << 30), "shuffle": False}
+        # several constraints violated by the same offspring (overlapping half-spaces near the parent)
+        a1 = [0.0] * dim
+        a1[0] = 1.0
+        a2 = [0.0] * dim
+        a2[0] = a2[1] = 1.0
+        a3 = [0.0] * dim
+        a3[1] = 1.0
+        x0 = [round(0.6 + 0.3 * rng.random(), 3) for _ in range(dim)]
+        yield {"k": "act", "dim": dim, "lam": rng.choice([1, 2, 3]), "obj": "sphere", "x0": x0, "sigma": 0.5,
+               "steps": [0.0] * dim, "cons": [[a1, 0.5], [a2, 0.9], [a3, 0.5]][:rng.choice([2, 3])],
+               "parent_fit": rng.random() < 0.5, "confit": True, "rounds": rng.randint(30, 80),
+               "seed": rng.randrange(1 << 30), "shuffle": False}
+        # few parents, many offspring: several offspring of one parent survive the same round
+        mu = rng.choice([1, 2, 2, 3])
+        yield {"k": "mo", "dim": dim, "mu": mu, "lam": rng.randint(mu + 2, lmax), "obj": rng.choice(["bisphere", "zdt"]),
+               "x0": [rnd_vec(rng, dim, 0.0, 1.0) for _ in range(mu)], "sigma": rng.choice([0.3, 0.7]),
+               "rounds": rng.randint(3, 20), "seed": rng.randrange(1 << 30)}
     # -- histories
     nhist = (1200 if thorough else 220) * mult
     for i in range(nhist):
